@@ -35,7 +35,7 @@ ASSUMPTIONS = [
 ]
 BOUNDS = {
     "quick": "n<=5 all perms x all masks x grid; end-to-end n<=3",
-    "thorough": "n<=6 all flavours, n=7 for four flavours: all perms x all masks x grid; end-to-end n<=5",
+    "thorough": "n<=6 all flavours, n=7 for three flavours: all perms x all masks x grid; end-to-end n<=5",
 }
 
 FLAVOURS = ["obj1", "obj2", "obj2_single", "obj2_neg", "obj2_negsum", "con_upper", "con_lower", "con_eq", "con_two_sided"]
@@ -296,7 +296,7 @@ def shards(tier: str, seed: int) -> list[dict[str, Any]]:
     for n in range(1, nmax + 1):
         flavours = [f for f in FLAVOURS if not (f == "con_two_sided" and n > 3)]
         if n == 7:
-            flavours = ["obj1", "obj2_neg", "con_lower", "con_eq"]  # n=7 (5040 orderings x 128 masks x grid): one flavour per ranking rule
+            flavours = ["obj1", "con_lower", "con_eq"]  # n=7 (5040 orderings x 128 masks x grid): one flavour per ranking rule
         masks = list(range(2**n))
         chunk = max(1, len(masks) // (1 if n < 4 else 8 if n < 5 else 32 if n < 7 else 128))
         for group in core.chunked(masks, chunk):
